@@ -113,7 +113,8 @@ def gen_spec(rng, sid, fault_ordinal=None, base=None):
         spec['fault'] = {'kind': kind, 'ordinal': fault_ordinal, 'tag': f'fault-{sid}-{fault_ordinal}',
                          'exc': rng.choice(['InjectedFault', 'InjectedFault', 'InjectedKeyError', 'InjectedLookupError', 'InjectedAttributeError',
                                             'InjectedStop', 'InjectedModelComplete', 'InjectedOSError', 'DeprecatedAliasCall']),
-                         't': rng.randint(0, max(0, last)) if kind == 'step' else None}
+                         't': rng.randint(0, max(0, last)) if kind == 'step' else None,
+                         'after_complete': kind == 'step' and rng.random() < 0.3}
     return spec
 
 
@@ -253,6 +254,8 @@ def check_batch(ctx, spec, out):
             ctx.count('faults_propagated_same_type')
         ctx.count('faults_propagated')
         ctx.count(f'fault_{fault["kind"]}')
+        if fault.get('after_complete'):
+            ctx.count('faults_raised_right_after_the_run_completed_itself')
         ctx.count('fault_exc_' + fault.get('exc', 'InjectedFault'))
         ctx.distinct(('fault', json.dumps(spec['grid'], sort_keys=True), reps, spec['processes'], fault['ordinal'], fault['kind']))
         return
@@ -290,6 +293,9 @@ def check_batch(ctx, spec, out):
                 ctx.count('records_checked')
                 check(r['collector'] == cid, f'record of collector {r["collector"]!r} found in the result of {cid!r} (mixed results)', **detail)
                 check(r['t'] == r['model_t'], 'model.timestep != scheduler timestep inside a batch run', **detail)
+                ctx.count('records_with_class_level_state_checked')
+                check(r.get('class_state') == r['uuid'], 'an execution ran while the class-level state its constructor had set up belonged to ANOTHER execution '
+                      '(executions are not one fresh model built and run at a time: their records mix)', record=r, **detail)
                 if uu is None:
                     uu = (r['uuid'], r['params'], r['ordinal'], r['pid'])
                 elif uu[0] != r['uuid']:
